@@ -89,6 +89,21 @@ fn one<const D: usize>(id: &str, rng: &mut Rng, out: &mut Out, nq: usize, nops: 
         let ot = match o { Ok(Ok(b)) => (b as u8).to_string(), Ok(Err(e)) => format!("err:{e}"), Err(m) => format!("panic:{m}") };
         let vt = match v { Ok(Ok(l)) => l.iter().map(|x| x.to_string()).collect::<Vec<_>>().join(" "), _ => "err".into() };
         lines.push(format!("hr q{qi} outside {ot} visible {vt}"));
+        // nearest visible facet, reported as the vertex ids of the facet
+        match catch(|| hull.find_nearest_visible_facet(&pt, tri_ref).map_err(|e| tri::err_kind(&format!("{e:?}")))) {
+            Ok(Ok(None)) => lines.push(format!("hn q{qi} none")),
+            Ok(Ok(Some(fi))) => {
+                if let Some(fh) = hull.get_facet(fi) {
+                    let fidx = fh.facet_index() as usize;
+                    if let Some(c) = w.dt.tds().get_cell(fh.cell_key()) {
+                        let vks: Vec<_> = c.vertices().iter().enumerate().filter(|(i, _)| *i != fidx).map(|(_, k)| *k).collect();
+                        let ids: Vec<usize> = vks.iter().map(|k| w.dt.tds().get_vertex_by_key(*k).and_then(|v| w.ids.get(&v.uuid())).unwrap_or(999_999)).collect();
+                        lines.push(format!("hn q{qi} {}", ids.iter().map(|x| x.to_string()).collect::<Vec<_>>().join(" ")));
+                    }
+                }
+            }
+            _ => {}
+        }
     }
     let mut ids: Ids = std::mem::take(&mut w.ids);
     tri::export(&w.dt, &mut ids, out);
